@@ -24,6 +24,13 @@ type recStore struct {
 
 	codeOrder, accessOrder, refreshOrder, pkceOrder, oidcOrder []string
 	atIdxOrder, rtIdxOrder                                     []string
+	parOrder, deviceOrder                                      []string
+
+	// store variant for the device grant: InvalidateDeviceCodeSession marks the record instead of
+	// deleting it and GetDeviceCodeSession then answers (request, ErrInvalidatedDeviceCode), as the
+	// RFC8628CoreStorage contract documents
+	devMark bool
+	devUsed map[string]bool
 
 	// fault plan: storage-call index -> error kind; nil = no faults
 	plan   map[int]string
@@ -53,7 +60,7 @@ func (s *recStore) hand(call, key string, req fosite.Requester) {
 }
 
 func newRecStore(epoch time.Time) *recStore {
-	return &recStore{MemoryStore: storage.NewMemoryStore(), epoch: epoch, fullCode: map[string]string{}}
+	return &recStore{MemoryStore: storage.NewMemoryStore(), epoch: epoch, fullCode: map[string]string{}, devUsed: map[string]bool{}}
 }
 
 func sigOf(token string) string {
@@ -128,6 +135,8 @@ func (s *recStore) sync() {
 	s.oidcOrder = prune(s.oidcOrder, func(k string) bool { _, ok := s.IDSessions[k]; return ok })
 	s.atIdxOrder = prune(s.atIdxOrder, func(k string) bool { _, ok := s.AccessTokenRequestIDs[k]; return ok })
 	s.rtIdxOrder = prune(s.rtIdxOrder, func(k string) bool { _, ok := s.RefreshTokenRequestIDs[k]; return ok })
+	s.parOrder = prune(s.parOrder, func(k string) bool { _, ok := s.PARSessions[k]; return ok })
+	s.deviceOrder = prune(s.deviceOrder, func(k string) bool { _, ok := s.DeviceAuths[k]; return ok })
 }
 
 // keyRef renders a lookup key as a lookup-only reference: the canonicaliser prints its name when
@@ -273,6 +282,10 @@ func (s *recStore) DeletePKCERequestSession(ctx context.Context, sig string) err
 func (s *recStore) oidcKeyRef(code string) string {
 	if sig := sigOf(code); sig != "" && s.fullCode[sig] == code {
 		return "full:" + keyRef('C', nil, sig)
+	}
+	if !strings.Contains(code, ".") && code != "" {
+		// a bare signature used as key (device flow)
+		return "full:" + keyRef('C', nil, code)
 	}
 	return "full:?"
 }
@@ -432,6 +445,128 @@ func (s *recStore) RotateRefreshToken(ctx context.Context, requestID string, sig
 	return err
 }
 
+// ---------------------------------------------------------------- PAR, device, users
+
+func cloneAuthorizeRequest(ar fosite.AuthorizeRequester) *fosite.AuthorizeRequest {
+	c := &fosite.AuthorizeRequest{
+		ResponseTypes:        append(fosite.Arguments{}, ar.GetResponseTypes()...),
+		RedirectURI:          ar.GetRedirectURI(),
+		State:                ar.GetState(),
+		HandledResponseTypes: fosite.Arguments{},
+		ResponseMode:         ar.GetResponseMode(),
+		DefaultResponseMode:  ar.GetDefaultResponseMode(),
+		Request:              *cloneRequest(ar),
+	}
+	return c
+}
+
+func (s *recStore) CreatePARSession(ctx context.Context, uri string, request fosite.AuthorizeRequester) error {
+	s.hand("createPAR", uri, request)
+	if err := s.fault(); err != nil {
+		s.log("createPAR(?,%s)=%s", ref('G', request.GetID()), resClass(err))
+		return err
+	}
+	err := s.MemoryStore.CreatePARSession(ctx, uri, cloneAuthorizeRequest(request))
+	s.parOrder = addOrder(s.parOrder, uri)
+	s.log("createPAR(%s,%s)=%s", ref('P', uri), ref('G', request.GetID()), resClass(err))
+	return err
+}
+
+func (s *recStore) GetPARSession(ctx context.Context, uri string) (fosite.AuthorizeRequester, error) {
+	s.hand("getPAR", uri, nil)
+	if err := s.fault(); err != nil {
+		s.log("getPAR(%s)=%s", keyRef('P', nil, uri), resClass(err))
+		return nil, err
+	}
+	r, err := s.MemoryStore.GetPARSession(ctx, uri)
+	s.log("getPAR(%s)=%s", keyRef('P', nil, uri), resClass(err))
+	if r == nil {
+		return nil, err
+	}
+	return cloneAuthorizeRequest(r), err
+}
+
+func (s *recStore) DeletePARSession(ctx context.Context, uri string) error {
+	s.hand("deletePAR", uri, nil)
+	if err := s.fault(); err != nil {
+		s.log("deletePAR(%s)=%s", keyRef('P', nil, uri), resClass(err))
+		return err
+	}
+	err := s.MemoryStore.DeletePARSession(ctx, uri)
+	s.log("deletePAR(%s)=%s", keyRef('P', nil, uri), resClass(err))
+	s.sync()
+	return err
+}
+
+func cloneDeviceRequest(r fosite.DeviceRequester) *fosite.DeviceRequest {
+	return &fosite.DeviceRequest{UserCodeState: r.GetUserCodeState(), Request: *cloneRequest(r)}
+}
+
+func (s *recStore) CreateDeviceAuthSession(ctx context.Context, dsig, usig string, req fosite.DeviceRequester) error {
+	s.hand("createDevice", dsig, req)
+	s.hand("createDevice", usig, nil)
+	if err := s.fault(); err != nil {
+		s.log("createDevice(?,%s)=%s", ref('G', req.GetID()), resClass(err))
+		return err
+	}
+	err := s.MemoryStore.CreateDeviceAuthSession(ctx, dsig, usig, cloneDeviceRequest(req))
+	s.deviceOrder = addOrder(s.deviceOrder, dsig)
+	s.log("createDevice(%s,%s,%s)=%s", ref('D', dsig), ref('U', usig), ref('G', req.GetID()), resClass(err))
+	return err
+}
+
+func (s *recStore) GetDeviceCodeSession(ctx context.Context, sig string, sess fosite.Session) (fosite.DeviceRequester, error) {
+	s.hand("getDevice", sig, nil)
+	if err := s.fault(); err != nil {
+		s.log("getDevice(%s)=%s", keyRef('D', nil, sig), resClass(err))
+		return nil, err
+	}
+	r, err := s.MemoryStore.GetDeviceCodeSession(ctx, sig, sess)
+	if err == nil && s.devUsed[sig] {
+		s.log("getDevice(%s)=used", keyRef('D', nil, sig))
+		return cloneDeviceRequest(r), fosite.ErrInvalidatedDeviceCode
+	}
+	s.log("getDevice(%s)=%s", keyRef('D', nil, sig), resClass(err))
+	if r == nil {
+		return nil, err
+	}
+	return cloneDeviceRequest(r), err
+}
+
+func (s *recStore) InvalidateDeviceCodeSession(ctx context.Context, sig string) error {
+	s.hand("invalidateDevice", sig, nil)
+	if err := s.fault(); err != nil {
+		s.log("invalidateDevice(%s)=%s", keyRef('D', nil, sig), resClass(err))
+		return err
+	}
+	var err error
+	if s.devMark {
+		if _, ok := s.DeviceAuths[sig]; ok {
+			s.devUsed[sig] = true
+		}
+	} else {
+		err = s.MemoryStore.InvalidateDeviceCodeSession(ctx, sig)
+	}
+	s.log("invalidateDevice(%s)=%s", keyRef('D', nil, sig), resClass(err))
+	s.sync()
+	return err
+}
+
+// Authenticate answers with a deterministic subject so that observations are reproducible.
+func (s *recStore) Authenticate(ctx context.Context, name string, secret string) (string, error) {
+	s.hand("authenticateUser", name, nil)
+	if err := s.fault(); err != nil {
+		s.log("authenticateUser(%s)=%s", name, resClass(err))
+		return "", err
+	}
+	_, err := s.MemoryStore.Authenticate(ctx, name, secret)
+	s.log("authenticateUser(%s)=%s", name, resClass(err))
+	if err != nil {
+		return "", err
+	}
+	return "sub-" + name, nil
+}
+
 // ---------------------------------------------------------------- dump
 
 func (s *recStore) relTime(t time.Time) string {
@@ -456,19 +591,22 @@ func (s *recStore) renderReq(r fosite.Requester) string {
 		keys = append(keys, k)
 	}
 	sort.Strings(keys)
-	sub, xa, xr, xc := "", "-", "-", "-"
+	sub, xa, xr, xc, xd, xu, xp := "", "-", "-", "-", "-", "-", "-"
 	if sess := r.GetSession(); sess != nil && !reflect.ValueOf(sess).IsNil() {
 		sub = sess.GetSubject()
 		xa = s.relTime(sess.GetExpiresAt(fosite.AccessToken))
 		xr = s.relTime(sess.GetExpiresAt(fosite.RefreshToken))
 		xc = s.relTime(sess.GetExpiresAt(fosite.AuthorizeCode))
+		xd = s.relTime(sess.GetExpiresAt(fosite.DeviceCode))
+		xu = s.relTime(sess.GetExpiresAt(fosite.UserCode))
+		xp = s.relTime(sess.GetExpiresAt(fosite.PushedAuthorizeRequestContext))
 	}
 	cid := ""
 	if r.GetClient() != nil {
 		cid = r.GetClient().GetID()
 	}
-	return fmt.Sprintf("g=%s c=%s gs=%s ga=%s sub=%s xa=%s xr=%s xc=%s f=%s", ref('G', r.GetID()), cid,
-		encListS(r.GetGrantedScopes()), encListS(r.GetGrantedAudience()), sub, xa, xr, xc, encListS(keys))
+	return fmt.Sprintf("g=%s c=%s gs=%s ga=%s sub=%s xa=%s xr=%s xc=%s xd=%s xu=%s xp=%s f=%s", ref('G', r.GetID()), cid,
+		encListS(r.GetGrantedScopes()), encListS(r.GetGrantedAudience()), sub, xa, xr, xc, xd, xu, xp, encListS(keys))
 }
 
 func b01(b bool) string {
@@ -507,7 +645,21 @@ func (s *recStore) dump() string {
 	for _, k := range s.oidcOrder {
 		oidc = append(oidc, fmt.Sprintf("%s:%s", s.oidcKeyRef(k), s.renderReq(s.IDSessions[k])))
 	}
-	return fmt.Sprintf("codes[%s] access[%s] refresh[%s] atIdx[%s] rtIdx[%s] pkce[%s] oidc[%s]",
+	var par, device []string
+	for _, k := range s.parOrder {
+		p := s.PARSessions[k]
+		redir := ""
+		if p.GetRedirectURI() != nil {
+			redir = p.GetRequestForm().Get("redirect_uri")
+		}
+		par = append(par, fmt.Sprintf("%s:rt=%s:redir=%s:state=%s:%s", ref('P', k), encListS(p.GetResponseTypes()), redir, p.GetState(), s.renderReq(p)))
+	}
+	for _, k := range s.deviceOrder {
+		d := s.DeviceAuths[k]
+		device = append(device, fmt.Sprintf("%s:%d:%s:%s", ref('D', k), d.GetUserCodeState(), b01(s.devUsed[k]), s.renderReq(d)))
+	}
+	return fmt.Sprintf("codes[%s] access[%s] refresh[%s] atIdx[%s] rtIdx[%s] pkce[%s] oidc[%s] par[%s] device[%s]",
 		strings.Join(codes, "; "), strings.Join(access, "; "), strings.Join(refresh, "; "),
-		strings.Join(atIdx, " "), strings.Join(rtIdx, " "), strings.Join(pkce, "; "), strings.Join(oidc, "; "))
+		strings.Join(atIdx, " "), strings.Join(rtIdx, " "), strings.Join(pkce, "; "), strings.Join(oidc, "; "),
+		strings.Join(par, "; "), strings.Join(device, "; "))
 }
